@@ -19,6 +19,7 @@ from zverif import battery as B
 from zverif import pobj
 from zverif import templates as T
 from zverif.api import assume, check, fail, reached, untraced, choose, realize, note
+from zverif.harness.c06 import h_multi_undo as _undo_merge  # noqa: E402  (the undo path uses the same resolver)
 from zverif.harness.c14 import SegBytes, SegBytesIO, FORMATS, make_record, split, _placeholder
 from zverif.model.revstore import MRec, MTxn
 from zverif.spec import Harness, shards
@@ -65,7 +66,7 @@ def _mk(storage):
     return env, s, h
 
 
-MODES = ['value', 'raise', 'conflict', 'noresolver', 'notimportable', 'garbage']
+MODES = ['value', 'raise', 'conflict', 'noresolver', 'notimportable', 'garbage', 'attrerror']
 
 
 def h_resolve(old_sel: int, mode_sel: int, storage: str) -> None:
@@ -80,7 +81,7 @@ def h_resolve(old_sel: int, mode_sel: int, storage: str) -> None:
     k = choose(old_sel, len(revs))
     mode = MODES[choose(mode_sel, len(MODES))]
     with untraced():
-        pobj.PCounter.mode = mode if mode in ('value', 'raise', 'conflict') else 'value'
+        pobj.PCounter.mode = mode if mode in ('value', 'raise', 'conflict', 'attrerror') else 'value'
         o = T.oid(1)
         new = pobj.counter_record(100, 'new')
         if mode == 'noresolver':
@@ -126,6 +127,19 @@ def h_resolve(old_sel: int, mode_sel: int, storage: str) -> None:
             s.tpc_abort(t)
             demo = isinstance(s, ZODB.DemoStorage.DemoStorage)
             B.full_battery(s, h.m, data_txn=hasattr(s, '_file'), undo_log=hasattr(s, 'undoLog') and not demo, iterator=not demo)
+            # a failed resolution must not poison later ones: an ordinary resolvable conflict on the same class
+            # (same process) is still resolved
+            if mode in ('raise', 'attrerror', 'conflict'):
+                pobj.PCounter.mode = 'value'
+                pobj.PCounter.calls = []
+                revs1 = h.m.revs(T.oid(1))
+                t2 = T.meta(b'w', b'second conflict')
+                s.tpc_begin(t2)
+                try:
+                    s.store(T.oid(1), revs1[0][0], pobj.counter_record(100, 'new'), '', t2)
+                except ConflictError:
+                    fail('a resolvable conflict is refused after an earlier resolver failure (%s) on the same class' % mode)
+                s.tpc_abort(t2)
     reached()
 
 
@@ -299,11 +313,16 @@ HARNESSES = [
     Harness('resolve', h_resolve,
             decides='store() against a newer committed revision: the resolver gets exactly (writer\'s base, committed, new), '
                     'its result is what is stored and reported at vote; every failure mode raises ConflictError and stores nothing',
-            symbolic='selector of the revision the writer started from (4 revisions), resolver outcome selector (6 modes)',
+            symbolic='selector of the revision the writer started from (4 revisions), resolver outcome selector (7 modes incl. a resolver raising AttributeError), followed by a second, resolvable conflict',
             bounds='4 revisions; FileStorage and DemoStorage (base+changes) paths', oracle='recorded resolver arguments + merge arithmetic + battery',
             code=['tryToResolveConflict', 'ConflictResolution.state', 'find_global', 'FileStorage.store', 'DemoStorage.store/tpc_vote'],
             quick=dict(timeout=100, shards=shards(storage=['file', 'demo'])),
             thorough=dict(timeout=300, shards=shards(storage=['file', 'demo']))),
+    Harness('undo_merge', _undo_merge,
+            decides='undo path: two undos of one resolvable object in one transaction merge against the in-transaction state (see C06 multi_undo)',
+            symbolic='two selectors over the transactions', bounds='scenario D (counter changed 4 times)', oracle='model_undo',
+            code=['FileStorage._transactionalUndoRecord', '_undoDataInfo', 'tryToResolveConflict'],
+            quick=dict(timeout=100, shards=shards(which=['D'])), thorough=dict(timeout=100, shards=shards(which=['D']))),
     Harness('refs', h_refs,
             decides='a persistent reference (any of 8 formats, any oid bytes) inside the writer\'s state is preserved exactly by the merge',
             symbolic='oid (8 free bytes), reference format selector', bounds='one symbolic reference (used twice in the state)',
